@@ -19,6 +19,10 @@ RulesSS == {PR("a", s, TRUE, d) : s \in {"s1", "s2"}, d \in BOOLEAN}
 RulesMix == {PR("a", "s1", TRUE, FALSE), PR("a", "s2", FALSE, TRUE), PR("b", "s2", TRUE, TRUE),
              IR("t1", "s1", FALSE), IR("t1", "s3", TRUE), IR(None, "s2", FALSE)}
 
+\* re-entrant add_rule (a sink adds a rule from inside its own startTestRun / stopTestRun): three rules that register
+\* their sink for start/stop (two of them the same sink: only one can be added), one that does not
+RulesRe == {PR("a", "s1", TRUE, TRUE), PR("b", "s2", FALSE, TRUE), IR("t1", "s2", TRUE), IR(None, "s3", FALSE)}
+
 \* rejected add_rule calls: every reason x two sinks x do_start_stop_run on / off
 BR(why, sink, dss) == [why |-> why, sink |-> sink, dss |-> dss]
 BadAll == {BR(w, s, d) : w \in {"slash", "unknown-policy", "bad-keyword"}, s \in {"s1", "s2"}, d \in BOOLEAN}
